@@ -42,56 +42,122 @@ REGEX_PAIRS = [
 ]
 
 
-def _sites_by_func(cx, port):
-    mods = ['rbql_engine', 'rbql_csv', 'csv_utils'] if port == 'py' else ['rbql', 'rbql_csv', 'csv_utils']
-    d = {}
-    for s in pa.regex_sites(cx, port, mods):
-        d.setdefault(s.func.name, []).append(s)
-    return d
+def _func_of(cx, port, name):
+    p = cx.port(port)
+    for m in (['rbql_engine', 'rbql_csv', 'csv_utils'] if port == 'py' else ['rbql', 'rbql_csv', 'csv_utils']):
+        f = p.func(m, name, required=False)
+        if f is not None:
+            return f
+    return None
 
 
 def _norm_pattern(p):
     return re.sub(r'^\(\?i\)', '', p)
 
 
+def _close(a, b):
+    """texts differ in at most a few characters (the allow-listed 'differs' pairs are near-identical spellings)"""
+    import difflib
+    return difflib.SequenceMatcher(None, a, b).ratio() > 0.8
+
+
 def rule_rx_xp(cx, rep, port=None):
-    py, js = _sites_by_func(cx, 'py'), _sites_by_func(cx, 'js')
+    """the regexes of twin functions accept the same strings.  Patterns are collected per function wherever they are written
+    (inline, compiled or literal at module level, applied by a helper) and paired by language, not by position: first
+    identical / language-equal pairs, then the allow-listed one-sided differences; anything left over is a disagreement."""
     n = 0
+    pairs = {}
     for (pf, pi, jf, ji, rel, why) in REGEX_PAIRS:
-        key = '{}[{}] ~ {}[{}]'.format(pf, pi, jf, ji)
-        ps, jss = py.get(pf, []), js.get(jf, [])
-        if pi >= len(ps) or ji >= len(jss):
-            rep.undecided(key, (cx.py.files['rbql_engine'], 0), 'paired regex not found (python has {}, javascript has {} in these functions)'.format(len(ps), len(jss)))
+        pairs.setdefault((pf, jf), []).append((rel, why))
+    for (pf, jf), rels in sorted(pairs.items()):
+        key = '{} ~ {}'.format(pf, jf)
+        fp, fj = _func_of(cx, 'py', pf), _func_of(cx, 'js', jf)
+        if fp is None or fj is None:
+            rep.undecided(key, (cx.py.files['rbql_engine'], 0), 'twin function not found in a port')
             continue
-        a, b = ps[pi], jss[ji]
-        if a.pattern is None or b.pattern is None:
-            rep.undecided(key, a.node, 'pattern is not a constant')
+        P = [(_norm_pattern(a), bool(ic) or a.startswith('(?i)'), node) for a, ic, node in pa.regexes_of(cx, 'py', fp, depth=0)]
+        J = [(_norm_pattern(a), bool(ic), node) for a, ic, node in pa.regexes_of(cx, 'js', fj, depth=0)]
+        if len(P) < len(rels) or len(J) < len(rels):
+            rep.undecided(key, fp, 'expected {} paired patterns, python has {}, javascript has {}'.format(len(rels), len(P), len(J)))
             continue
-        n += 1
-        pa_, pb_ = _norm_pattern(a.pattern), _norm_pattern(b.pattern)
-        ica, icb = a.ignorecase or a.pattern.startswith('(?i)'), b.ignorecase
-        if ica != icb:
-            rep.violated(key, b.node if not icb else a.node, 'case sensitivity differs between the ports: python {}, javascript {} for `{}`'.format('insensitive' if ica else 'sensitive', 'insensitive' if icb else 'sensitive', pa_))
-            continue
-        if pa_ == pb_:
-            rep.holds(key, a.node, 'identical pattern text and flags')
-            continue
-        if rel == 'differs':
-            rep.holds(key, a.node, 'allow-listed difference: ' + why)
-            continue
-        try:
-            la = R.Lang(pa_, re.IGNORECASE if ica else 0)
-            lb = R.Lang(pb_, re.IGNORECASE if icb else 0, flavour='js')
+        langs = {}
+
+        def lang(item, flavour):
+            k = (item[0], item[1], flavour)
+            if k not in langs:
+                try:
+                    langs[k] = R.Lang(item[0], re.IGNORECASE if item[1] else 0, flavour=flavour)
+                except R.Unsupported as e:
+                    langs[k] = e
+            return langs[k]
+        leftP, leftJ = list(P), list(J)
+        matched = 0
+        # 1. identical text and case flag
+        for a in list(leftP):
+            hit = [b for b in leftJ if b[0] == a[0] and b[1] == a[1]]
+            if hit:
+                leftP.remove(a)
+                leftJ.remove(hit[0])
+                matched += 1
+                rep.holds('{}: `{}`'.format(key, a[0][:50]), a[2], 'identical pattern text and flags')
+        # 2. equal languages
+        for a in list(leftP):
+            la = lang(a, 'py')
+            if isinstance(la, Exception):
+                continue
+            for b in list(leftJ):
+                lb = lang(b, 'js')
+                if isinstance(lb, Exception) or a[1] != b[1]:
+                    continue
+                eq, w1, w2 = R.compare(la, lb)
+                if eq:
+                    leftP.remove(a)
+                    leftJ.remove(b)
+                    matched += 1
+                    rep.holds('{}: `{}`'.format(key, a[0][:50]), a[2], 'different spelling, same language (DFA product)')
+                    break
+        # 3. allow-listed one-sided differences
+        allowed = [(rel, why) for rel, why in rels if rel != 'eq']
+        for rel, why in allowed:
+            done = False
+            for a in list(leftP):
+                for b in list(leftJ):
+                    la, lb = lang(a, 'py'), lang(b, 'js')
+                    if a[1] != b[1] or isinstance(la, Exception) or isinstance(lb, Exception):
+                        continue
+                    eq, w1, w2 = R.compare(la, lb)
+                    if (rel == 'sub' and w1 is None) or (rel == 'differs' and _close(a[0], b[0])):
+                        leftP.remove(a)
+                        leftJ.remove(b)
+                        matched += 1
+                        done = True
+                        rep.holds('{}: `{}`'.format(key, a[0][:50]), a[2], 'allow-listed difference: ' + why)
+                        break
+                if done:
+                    break
+        n += matched
+        # 4. fewer agreeing pairs than the twins are known to share: the most similar left-overs disagree
+        missing = len(rels) - matched
+        import difflib
+        while missing > 0 and leftP and leftJ:
+            a, b = max(((x, y) for x in leftP for y in leftJ), key=lambda xy: difflib.SequenceMatcher(None, xy[0][0], xy[1][0]).ratio())
+            leftP.remove(a)
+            leftJ.remove(b)
+            missing -= 1
+            if difflib.SequenceMatcher(None, a[0], b[0]).ratio() < 0.5:
+                rep.undecided('{}: `{}`'.format(key, a[0][:50]), a[2], 'no javascript counterpart recognised for this pattern in {}'.format(jf))
+                continue
+            if a[1] != b[1]:
+                rep.violated('{}: `{}`'.format(key, a[0][:50]), b[2] if not b[1] else a[2], 'case sensitivity differs between the ports: python {}, javascript {} for `{}`'.format('insensitive' if a[1] else 'sensitive', 'insensitive' if b[1] else 'sensitive', a[0]))
+                continue
+            la, lb = lang(a, 'py'), lang(b, 'js')
+            if isinstance(la, Exception) or isinstance(lb, Exception):
+                rep.violated('{}: `{}`'.format(key, a[0][:50]), b[2], 'the paired patterns differ textually (`{}` vs `{}`) and cannot be compared as regular languages ({})'.format(a[0], b[0], la if isinstance(la, Exception) else lb))
+                continue
             eq, w1, w2 = R.compare(la, lb)
-        except R.Unsupported as e:
-            rep.violated(key, b.node, 'the paired patterns differ textually (`{}` vs `{}`) and cannot be compared as regular languages ({})'.format(pa_, pb_, e))
-            continue
-        if eq:
-            rep.holds(key, a.node, 'different spelling, same language (DFA product)')
-        elif rel == 'sub' and w1 is None:
-            rep.holds(key, a.node, 'python language is contained in the javascript language; allow-listed: ' + why)
-        else:
-            rep.violated(key, b.node, 'python `{}` and javascript `{}` accept different strings: {}'.format(pa_, pb_, 'only python accepts {!r}'.format(w1) if w1 is not None else 'only javascript accepts {!r}'.format(w2)))
+            rep.violated('{}: `{}`'.format(key, a[0][:50]), b[2], 'python `{}` and javascript `{}` accept different strings: {}'.format(a[0], b[0], 'only python accepts {!r}'.format(w1) if w1 is not None else 'only javascript accepts {!r}'.format(w2)))
+        if missing > 0:
+            rep.undecided(key, fp, '{} of the {} patterns the twin functions shared have no counterpart any more'.format(missing, len(rels)))
     rep.require_count('paired regexes', n, 24, (cx.py.files['rbql_engine'], 0))
     # csv_utils module-level regexes
     from .cs import _module_regexes
